@@ -35,15 +35,17 @@ def size_body(src, name):
     return m.group(1) if m else None
 
 
-def split_terms(body):
+def split_terms(body, ind=8):
+    """terms of a sum printed one per line at indentation `ind`; each term keeps its raw continuation lines"""
     terms, cur = [], None
+    pad = " " * ind
     for l in body.split("\n"):
-        if re.match(r"        (\+ )?\S", l) and not l.startswith("        }"):
+        if re.match(pad + r"(\+ )?\S", l) and not l.startswith(pad + "}"):
             if cur is not None:
                 terms.append(cur)
-            cur = l.strip()
-        else:
-            cur = (cur or "") + " " + l.strip()
+            cur = [l.strip(), []]
+        elif cur is not None:
+            cur[1].append(l)
     if cur:
         terms.append(cur)
     return terms
@@ -86,12 +88,28 @@ class SizeTranslator:
         body = size_body(src, tname)
         if body is None:
             raise Unreadable(f"{tname} has no size()")
-        return self.terms(ctx, body, d[1], depth)
+        return self.terms(ctx, body, d[1], depth, decls)
 
-    def terms(self, ctx, body, fields, depth):
+    def terms(self, ctx, body, fields, depth, decls=None, ind=8):
         out = []
-        for t in split_terms(body):
+        for t, cont in split_terms(body, ind):
             t = re.sub(r"^\+ ", "", t)
+            mo = re.fullmatch(r"if let Some\((\w+)\) = &self\.(\w+) \{", t)
+            if mo:
+                # optional tail: `if let Some(x) = &self.x { <terms over x.…> } else { 0 }`
+                tail = [c.strip() for c in cont if c.strip()]
+                if tail[-3:] != ["} else {", "0", "}"]:
+                    raise Unreadable(f"optional member: `{' '.join(tail[-3:])}`")
+                inner = [c for c in cont if c.strip()][:-3]
+                ot = self.elem_type(re.sub(r"^Option<(.+)>$", r"\1", fields.get(mo.group(2), "").strip()))
+                od = (decls or {}).get(ot)
+                if od is None or od[0] != "struct":
+                    raise Unreadable(f"optional member type {ot}")
+                ibody = "\n".join(re.sub(r"\b" + mo.group(1) + r"\.", "self.", c) for c in inner)
+                out += ["opt"] + self.terms(ctx, ibody, od[1], depth + 1, decls, ind + 4) + ["end"]
+                continue
+            t = t + " " + " ".join(c.strip() for c in cont)
+            t = t.strip()
             code, _, comment = t.partition(" // ")
             code = code.strip()
             cty = comment.split(": ", 1)[1].strip() if ": " in comment else ""
@@ -170,7 +188,7 @@ class SizeTranslator:
             return None
         if d is None or d[0] != "struct":
             raise Outside(f"{name} is not a plain struct")
-        return self.terms(ctx, body, d[1], 0)
+        return self.terms(ctx, body, d[1], 0, decls)
 
 
 def translate_all(ix=None, only=None):
